@@ -161,6 +161,24 @@ func buildDB(c *Ctx, p *Prog) *dbModel {
 					if _, isParam := tmpl.(*ssa.Parameter); isParam && fn.Name() == "TParm" {
 						return
 					}
+					// a row of a local table of capabilities (`{t.SetFg, fi}, {t.SetBg, bi}`): every
+					// string stored into that column is a use with this argument list
+					if srcs := localTableColumn(tmpl); len(srcs) > 0 {
+						all := true
+						for _, src := range srcs {
+							if r2, _, ok2 := loadedField(src); !ok2 || r2.Owner != "terminfo.Terminfo" {
+								all = false
+							}
+						}
+						if all {
+							for _, src := range srcs {
+								r2, _, _ := loadedField(src)
+								setArity(m.arity, r2.Name, n, kinds, in.Pos())
+								m.argKinds[r2.Name] = kinds
+							}
+							return
+						}
+					}
 					m.unknown = append(m.unknown, p.pos(in.Pos())+": TParm on a string that is neither a Terminfo field nor a prepared screen string: "+valName(tmpl))
 				}
 			}
@@ -256,4 +274,102 @@ func (m *dbModel) arityOf(f string) (int, bool) {
 		}
 	}
 	return n, ok
+}
+
+// localTableColumn: v reads field k of an element of a local array of structs (or of a local struct);
+// the values stored into that field anywhere in the function are returned (nil when v is not such a
+// read, or the table escapes).
+func localTableColumn(v ssa.Value) []ssa.Value {
+	var field int
+	var agg ssa.Value
+	switch x := v.(type) {
+	case *ssa.Field:
+		field, agg = x.Field, x.X
+	case *ssa.UnOp:
+		fa, ok := x.X.(*ssa.FieldAddr)
+		if !ok || x.Op != token.MUL {
+			return nil
+		}
+		field, agg = fa.Field, fa.X
+	default:
+		return nil
+	}
+	// down to the allocation
+	var root *ssa.Alloc
+	for i := 0; i < 6 && root == nil; i++ {
+		switch y := agg.(type) {
+		case *ssa.Index:
+			agg = y.X
+		case *ssa.IndexAddr:
+			agg = y.X
+		case *ssa.UnOp:
+			agg = y.X
+		case *ssa.Phi:
+			return nil
+		case *ssa.Alloc:
+			root = y
+		default:
+			return nil
+		}
+	}
+	if root == nil {
+		return nil
+	}
+	var out []ssa.Value
+	okAll := true
+	var visit func(addr ssa.Value, depth int)
+	visit = func(addr ssa.Value, depth int) {
+		for _, r := range referrers(addr) {
+			switch y := r.(type) {
+			case *ssa.IndexAddr:
+				if depth < 3 {
+					visit(y, depth+1)
+				}
+			case *ssa.FieldAddr:
+				if y.Field == field {
+					for _, r2 := range referrers(y) {
+						if st, ok := r2.(*ssa.Store); ok && st.Addr == ssa.Value(y) {
+							out = append(out, st.Val)
+						}
+					}
+				}
+			case *ssa.UnOp, *ssa.DebugRef:
+			case *ssa.Store:
+				if y.Addr != addr {
+					okAll = false // the table's address is stored somewhere
+					continue
+				}
+				// a whole row copied in (the range variable of `for _, c := range table`): follow the
+				// row back to the table it comes from
+				src := y.Val
+				var from *ssa.Alloc
+				for i := 0; i < 5 && from == nil; i++ {
+					switch z := src.(type) {
+					case *ssa.Index:
+						src = z.X
+					case *ssa.IndexAddr:
+						src = z.X
+					case *ssa.UnOp:
+						src = z.X
+					case *ssa.Alloc:
+						from = z
+					default:
+						i = 5
+					}
+				}
+				if from == nil || from == root || depth >= 3 {
+					okAll = false
+					continue
+				}
+				visit(from, depth+1)
+			default:
+				okAll = false
+			}
+		}
+	}
+	visit(root, 0)
+	if !okAll {
+		return nil
+	}
+	return out
 }
